@@ -300,6 +300,7 @@ def run_cases(ctx, exe, cases, cnt, var, cov, dist, distinct, nested=False):
     sans = ctx.model("pcp", "".join(l + "\n" for l in slines), timeout=1800)
     if not nested:
         ctx.log("specification evaluated")
+    errcases = []
     for i, c in enumerate(cases):
         cov["evaluations"] += 1
         ans, crash = impl[i]
@@ -402,8 +403,45 @@ def run_cases(ctx, exe, cases, cnt, var, cov, dist, distinct, nested=False):
                 ctx.disagreement("pcp round trip file system", "; ".join(diffs[:4]), cj)
         else:
             dist["with_error_replies"] += 1
+            if f["c2s"] != "~":
+                errcases.append((i, c, cj, f, replies, m))
         if len(cov["samples"]) < 3 and c["nent"] <= 6:
             cov["samples"].append(dict(case=cj, spec=sp[:200]))
+    # ---- the interactive paths: what the REAL client sent after error replies goes through the receiver model, and
+    # for a plain file whose name is taken by a directory the client must have skipped exactly the data and the NUL
+    if errcases and not nested:
+        lines = []
+        for i, c, cj, f, replies, m in errcases:
+            lines.append("sink %d %d %o %d %d %d %d %s %s %s %s" % (
+                c["p"], c["y"], c["um"], cnt, var["rule"], var["dch"], c.get("fsz", 0), hx(CWD), hx(c["dest"]), f["c2s"],
+                " ".join(e.token() for e in ents_l[i])))
+        for (i, c, cj, f, replies, m), ml in zip(errcases, ctx.model("pcp", "".join(l + "\n" for l in lines))):
+            dist["error_paths_checked"] = dist.get("error_paths_checked", 0) + 1
+            mm = pcp.parse_model(ml)
+            if mm["replies"] != replies:
+                ctx.disagreement("pcp sink replies (real client stream with error replies)",
+                                 "impl %s model %s" % (replies[:12], mm["replies"][:12]), cj)
+                continue
+            diffs = pcp.compare_fs(mm["fs"], snaps[i], t0)
+            if diffs:
+                ctx.disagreement("pcp file system (real client stream with error replies)", "; ".join(diffs[:4]), cj)
+            if c.get("conflict") and c["conflict"][1] == "f" and m["c2s"] != "~":
+                # sender model of Pcp/Isolated.lean (itemsBytes): the all-positive stream without that file's data + NUL
+                full = pcp.unhx(m["c2s"])
+                node = dict((pa, n) for _, t in c["srcs"] for pa, n in walk(t, []))[c["conflict"][0]]
+                top = next(t for _, t in c["srcs"] if t.name == c["conflict"][0].split(b"/")[0])
+                sent = node.name if b"/" in c["conflict"][0] else dest_name(c, b"", top)
+                rec = b" %d " % node.gen[1] + sent + b"\n"
+                k = full.find(rec)
+                if k >= 0:
+                    k += len(rec)
+                    want = full[:k] + full[k + node.gen[1] + 1:]
+                    if pcp.unhx(f["c2s"]) != want:
+                        ctx.disagreement("pcp sender after an error reply", "the client did not skip exactly the data "
+                                         "and the NUL of the refused file: real %s expected %s" %
+                                         (f["c2s"][:200], want.hex()[:200]), cj)
+                    else:
+                        dist["skip_after_error_confirmed"] = dist.get("skip_after_error_confirmed", 0) + 1
     for d in (sbase, jbase):
         shutil.rmtree(d, ignore_errors=True)
 
